@@ -25,14 +25,15 @@ AddField == phase = "build" /\ Len(cur) < NFIELDS /\ CurOpen /\ \E f \in FIELDS 
 CloseChunk == phase = "build" /\ Len(chunks) < NCHUNKS /\ chunks' = Append(chunks, cur) /\ cur' = <<>> /\ UNCHANGED <<plans, phase>>
 StartPlan == phase = "build" /\ chunks # <<>> /\ cur = <<>> /\ phase' = "plan" /\ UNCHANGED <<chunks, cur, plans>>
 \* unless ALLPLANS, only the last chunk is read completely without surplus (its results are what the earlier plans must not disturb)
-ChoosePlan == phase = "plan" /\ Len(plans) < Len(chunks) /\
-              LET c == chunks[Len(plans) + 1]
+\* one plan per chunk plus one for a chunk that does not exist (everything read there must be zero / empty)
+ChoosePlan == phase = "plan" /\ Len(plans) < Len(chunks) + 1 /\
+              LET c == ChunkAt(chunks, Len(plans) + 1)
                   last == Len(plans) + 1 = Len(chunks)
               IN  \E k \in 0..Len(c), e \in EXTRAS :
                     /\ (last /\ ~ALLPLANS) => (k = Len(c) /\ e = <<>>)
                     /\ plans' = Append(plans, [k |-> k, extra |-> e])
               /\ UNCHANGED <<chunks, cur, phase>>
-Finish == phase = "plan" /\ Len(plans) = Len(chunks) /\ phase' = "done" /\ UNCHANGED <<chunks, cur, plans>>
+Finish == phase = "plan" /\ Len(plans) \in {Len(chunks), Len(chunks) + 1} /\ phase' = "done" /\ UNCHANGED <<chunks, cur, plans>>
 Next == AddField \/ CloseChunk \/ StartPlan \/ ChoosePlan \/ Finish
 Spec == Init /\ [][Next]_vars
 
@@ -41,8 +42,8 @@ InvNoBreakInChunk == \A f \in FIELDS \cup TRAILING : NoBreakInField(f)
 \* one invariant so that the model's results are computed once per finished behaviour
 InvDone == phase = "done" =>
              LET res == Res
-             IN  /\ \A c \in 1..Len(chunks) : PrefixCorrect(chunks[c], plans[c], res[c])     \* PrefixCorrect
-                 /\ \A c \in 1..Len(chunks) : SurplusZero(chunks[c], plans[c], res[c])       \* SurplusZero
+             IN  /\ \A c \in 1..Len(plans) : PrefixCorrect(ChunkAt(chunks, c), plans[c], res[c])     \* PrefixCorrect
+                 /\ \A c \in 1..Len(plans) : SurplusZero(ChunkAt(chunks, c), plans[c], res[c])       \* SurplusZero
                  /\ NonInterference(chunks, plans, res)                                       \* NonInterference
 Emit == (EMIT /\ phase = "done") => PrintT(ToJson([chunks |-> chunks, plans |-> plans]))
 =============================================================================
